@@ -332,6 +332,9 @@ class PointTier(textgrid_tier.TextgridTier):
         else:
             newPoint = entry
 
+        # Labels are stored without surrounding whitespace (see the constructor)
+        newPoint = Point(newPoint.time, newPoint.label.strip())
+
         matchList = []
         i = None
         for i, point in enumerate(self.entries):
